@@ -689,7 +689,7 @@ func loadInlineObjectFromFile(
 
 	cachedView, cacheExists := scope.Tx.CachedViews.Load(fileInfo.IdentifiedPath())
 
-	if cacheExists {
+	if cacheExists && cachedView.FileInfo.Handler != nil {
 		fp = cachedView.FileInfo.Handler.File()
 	} else {
 		h, e := scope.Tx.FileContainer.CreateHandlerForRead(ctx, fileInfo.Path, scope.Tx.WaitTimeout, scope.Tx.RetryDelay)
